@@ -8,6 +8,10 @@ values are origin terms (see prog.py) simplified syntactically.
 from .prog import (cname, op_const, op_place, place_key, _freeze_const, _simplify, _mk_field, int_range, fold, _cint, _wrap)
 
 
+import re as _re0
+_SCALARISH = _re0.compile(r"^([iu](8|16|32|64|128|size)|bool)$|Flags$")
+
+
 class TooManyPaths(Exception):
     pass
 
@@ -235,7 +239,42 @@ class Path:
             r = ("unknown", "nodef:_%d" % local)
         else:
             r = self._value_of_def(d, depth + 1)
+            if d[0] in ("s", "t") and _SCALARISH.search(self.body.local_ty(local) or ""):
+                r = self._apply_local_mutations(local, d, pos, r, depth)
         self._cache[ck] = r
+        return r
+
+    def _apply_local_mutations(self, local, d, pos, r, depth):
+        """A scalar / bitflags local that is handed out as `&mut local` after its definition (`flags |= X`, `status.set(F, true)`,
+        `n += 1` through a helper) no longer holds the defining value: fold the known bitflags mutators into the term, make
+        anything else unknown."""
+        body = self.body
+        for q in range(d[1], pos):
+            if d[0] == "t" and q == d[1]:
+                continue
+            t = body.blocks[self.blocks[q]]["term"]
+            if t["k"] != "call" or not t["args"] or "indirect" in t["func"]:
+                continue
+            a0 = op_place(t["args"][0])
+            if a0 is None or a0["p"]:
+                continue
+            dd = self._find_def(a0["l"], q, None)
+            if dd is None or dd[0] != "s":
+                continue
+            if d[0] == "s" and (dd[1], dd[2]) < (d[1], d[2]):
+                continue
+            rv = body.blocks[self.blocks[dd[1]]]["stmts"][dd[2]]["rv"]
+            if not (rv["k"] == "ref" and rv.get("mut", False) and rv["place"]["l"] == local and not rv["place"]["p"]):
+                continue
+            name = cname(t["func"])
+            m = _re.search(r"::(bitor_assign|insert|set|remove|toggle|bitand_assign|bitxor_assign|sub_assign)$", name)
+            arg1 = self.origin_op(t["args"][1], q, None, depth + 1) if len(t["args"]) > 1 else None
+            if m and m.group(1) in ("bitor_assign", "insert") and arg1 is not None:
+                r = ("call", name[:-len(m.group(1))] + "union", (r, arg1), ("site", self.blocks[q]))
+            elif m and m.group(1) == "set" and len(t["args"]) == 3 and _cint(self.origin_op(t["args"][2], q, None, depth + 1)) == 1:
+                r = ("call", name[:-len("set")] + "union", (r, arg1), ("site", self.blocks[q]))
+            else:
+                r = ("unknown", "mutated:%s" % name.split("::")[-1])
         return r
 
     def _value_of_def(self, d, depth):
